@@ -19,16 +19,17 @@ const (
 
 // Atom is one observable of a rule.
 type Atom struct {
-	Kind    AtomKind
-	Name    string
-	A, B    string  // canonical term strings (B only for Cmp)
-	Vals    []int64 // Enum: the constants, in order; a final implicit value "other"
-	N       int
-	History bool // records the outcome of a test when it was made; never widened by stores/calls/windows
-	Stable  bool // not invalidated by unlock windows: the rule that declares it widens it itself at section ends
-	Closed  bool // Enum: the term only ever holds the listed constants (justified by a separate writer check); "other" is infeasible
-	Labels  []string
-	dep     *Term // union of the dependencies of every program term matched to A or B so far
+	Kind     AtomKind
+	Name     string
+	A, B     string  // canonical term strings (B only for Cmp)
+	Vals     []int64 // Enum: the constants, in order; a final implicit value "other"
+	N        int
+	History  bool // records the outcome of a test when it was made; never widened by stores/calls/windows
+	Stable   bool // not invalidated by unlock windows: the rule that declares it widens it itself at section ends
+	Closed   bool // Enum: the term only ever holds the listed constants (justified by a separate writer check); "other" is infeasible
+	Labels   []string
+	skipKill bool  // transient: the current store shifts this atom instead of forgetting it
+	dep      *Term // union of the dependencies of every program term matched to A or B so far
 }
 
 const (
